@@ -55,6 +55,21 @@ CHECKS = {
         ],
         "assumptions": ["Round offsets judged outside the chordal band |delta|(1-cos(pi/segments)) + guard; Bevel joins are exempt from the round-dilation containment (their chord cuts inside the delta-circle)"],
     },
+    "C18": {
+        "subs": [
+            {"name": "measure", "bin": "c18_measure", "variant": "asan",
+             "quick": {"n": 6400, "size": 100}, "thorough": {"n": 300000, "size": 150}},
+        ],
+        "assumptions": ["query arguments in general position: segments with a brute-force hit within 1e-6 (barycentric) of an edge or 1e-9 of an end are skipped and counted; points within 64*tol+1e-9*scale of the surface are skipped"],
+    },
+    "C17": {
+        "subs": [
+            {"name": "construct", "bin": "c17_construct", "variant": "asan",
+             "quick": {"n": 9600, "size": 100}, "thorough": {"n": 400000, "size": 150}},
+        ],
+        "assumptions": ["faceting bands are derived per shape (sphere: conservative inscribed radius; extrude: |delta edge|/4 per layer; revolve and frustum: exact facet geometry; LevelSet: 1.5*edgeLength) and points inside the band are skipped and counted",
+                        "NaN/garbage arguments are C09's domain; only documented-invalid arguments are expected to give InvalidConstruction"],
+    },
 }
 
 PBT = "property-based testing (rapidcheck byte-tape generators, shrinking, replay files)"
@@ -74,4 +89,8 @@ MANIFEST_TEXT = {
 }
 MANIFEST_TEXT["C12"] = {"text": "Offset judged against own distance-to-region / distance-to-complement (Round exactly outside the chordal band; all joins by containment, reach, monotonicity, regularity); Hull vs own monotone chain; Decompose and Simplify by their stated structural invariants",
                         "note": "sampled points; regions of a few constructed families with known feature sizes", "technique": PBT + " against a distance-field reference and structural predicates"}
+MANIFEST_TEXT["C18"] = {"text": "every measurement/query getter compared with a brute-force definition evaluated on the exported mesh (signed tetrahedra, Moeller-Trumbore, solid-angle winding, all-pairs triangle distance, union-find components)",
+                        "note": "generic query arguments by construction/skip rule; meshes <= a few thousand triangles", "technique": PBT + " differential against brute-force reference implementations"}
+MANIFEST_TEXT["C17"] = {"text": "analytic membership of every constructor (with derived faceting bands) and the documented point map of every transform compared with a solid-angle winding number on the export; documented-invalid arguments; Quality segment rules",
+                        "note": "sampled points, 60% of them concentrated just off the surface", "technique": PBT + " against analytic reference models and metamorphic transform relations"}
 NOT_CLAIMED = {}
